@@ -328,8 +328,31 @@ pub fn make_case(lines: &[String], path_s: &str, faults: usize) -> Case {
 
 const PATHS: &[&str] = &["test.py", "src/módulo.py", "a b/c.py"];
 
+/// sources kept in every run: shapes that random fault injection reaches rarely — an unterminated statement (a hidden
+/// MISSING newline: `has_error()` without a visible node) that is not the first of a nested block, followed by a later
+/// error; the ROOT itself an ERROR node; only MISSING anonymous tokens; adjacent ERROR siblings; a MISSING node as last child
+const FIXED_SOURCES: &[&str] = &[
+    "def f():\n    g()\n    h()é\nb 11\n",
+    "class K:\n    def m(self):\n        x = 1\n        y = a + b.\n    z = 2\nq = = 3\n",
+    "def f():\n    g()\n    h()é\n",
+    "if x:\n  (",
+    "while x:\n  y = (\n",
+    "def f(:\n    pass\n",
+    "def f(a,:\n    pass\nx = (1\n",
+    "x = 1, 2, (3, 4)]\ny = f(x)0]\n",
+    "x = 1, (3 4)]\ny = f(x)[0\nwhile y:\n    y -= 1\n",
+    "def f(:\n    pass\nz = 1 1\n",
+    "s = [\"é\", \"ö\", \"ü\" 3]\n",
+    "if x:\n    y = foo(1,\n 2\n",
+];
 pub fn gen(rng: &mut Rng, n: usize) -> Vec<Case> {
     let mut cases = Vec::new();
+    for (k, src) in FIXED_SOURCES.iter().enumerate() {
+        if cases.len() >= n { break; }
+        let lines: Vec<String> = src.split_inclusive('\n').map(|l| l.to_string()).collect();
+        let _ = k;
+        cases.push(make_case(&lines, "test.py", 1));
+    }
     for i in 0..n {
         let (lines, faults) = gen_source(rng, i);
         let path = *rng.pick(PATHS);
